@@ -182,7 +182,9 @@ def family_specs(tier: str) -> dict:
     return {
         # regular files of every size around the sha256/sha512 block, empty dirs, no links
         "sizes": {
-            "files": [str(s) for s in SIZES] + ([] if q else [f"{s}^{s - 1}" for s in SIZES if s]),
+            # quick: 4 sizes inside trees (all 8 sizes are still covered by the one-file flip trees and the
+            # primitive checks); thorough: all 8 sizes plus a last-byte-flipped variant of each
+            "files": [str(s) for s in ((0, 1, 64, 65) if q else SIZES)] + ([] if q else [f"{s}^{s - 1}" for s in SIZES if s]),
             "links": False,
             "outside": [],
             "cousins": False,
